@@ -202,10 +202,18 @@ def hyp_explore(strategy, check, max_examples, seed, shrink=True, stateful_steps
       last["f"] = (case, v)
       raise
 
+  import hypothesis.errors as herr
   try:
     prop()
   except PropertyViolation:
     return last["f"]
+  except herr.Flaky:
+    # a violation was observed on the real code but did not repeat when the same case was
+    # run again (allocator- or address-dependent behaviour): report what was observed
+    if "f" in last:
+      case, v = last["f"]
+      return case, PropertyViolation(v.msg + " [observed once; the same case did not fail when re-run]", v.bucket)
+    raise
   return None
 
 
